@@ -69,6 +69,7 @@ def run(ctx):
     tree = ctx.ensure_tree()
     specs = [s for s in common.select(ctx, corpus.specs()) if ('warn' in s.tags or (not quick and not (s.tags & {'reject', 'vartrail', 'bar', 'big'})))]
     specs = [s for s in specs if not s.lex_compat and not any(r.fallthrough for r in s.rules)]
+    specs += [s for s in corpus.specs(names=['w_vartrail_nodefault', 'tc_var', 'tc_var2', 'rej1']) if s not in specs]
     cfg = C('Cem')
     jobs = []
     for s in specs:
@@ -77,7 +78,35 @@ def run(ctx):
         if not common.gen_ok(ctx, g, s, cfg, 'warnings'):
             continue
         if 'dangerous trailing context' in g.stderr or H.has_name(g, 'yy_acclist'):
-            ctx.record('warn_%s' % s.name, 'excluded', reason='REJECT/variable trailing context: only "no false warning" is promised')
+            # REJECT / variable trailing context: flex promises only that it gives no FALSE warning
+            useful0, _ = useful_rules(s)
+            if useful0 is not None:
+                lines0 = g.ltext.split('\n')
+                bad = []
+                k0, in20 = 0, False
+                rl = {}
+                for i0, ln0 in enumerate(lines0, 1):
+                    if ln0.startswith('%%'):
+                        if in20:
+                            break
+                        in20 = True
+                        continue
+                    if in20 and ln0.strip() and ln0.strip() != '}' and not ln0.rstrip().endswith('{') and '<<EOF>>' not in ln0:
+                        k0 += 1
+                        rl[i0] = k0
+                for m0 in re.finditer(r':(\d+): warning, rule cannot be matched', g.stderr):
+                    r0 = rl.get(int(m0.group(1)))
+                    if r0 is not None and r0 in useful0:
+                        bad.append('rule %d is warned as unmatchable but some input selects it' % r0)
+                if 'default rule can be matched' in g.stderr and s.default_rule.num not in useful0:
+                    bad.append('-s warns that the default rule can be matched, but no input reaches it')
+                st0 = 'ok'
+                if bad:
+                    st0 = ctx.violation('warn_%s_nofalse' % s.name, '; '.join(bad), dict(flex_input=g.ltext, stderr=g.stderr),
+                                        key=dict(entry=s.name, engine='flex-run', assertion='no false warning'))
+                    st0 = 'violated' if st0 == 'violation' else 'known-finding'
+                ctx.record('warn_%s_nofalse' % s.name, st0, engine='flex-run', entry=s.name,
+                           detail='; '.join(bad) or 'REJECT/variable trailing context rule set: no false warning')
             continue
         # warnings of the real binary -> rule numbers (via the line of each rule in the rendered input)
         lines = g.ltext.split('\n')
